@@ -57,8 +57,8 @@ let predict (c : string) (obs : string) : string * string * bool =
              if outcome = "hang" then "BAD:hang"
              else if rps_fin = "2" then "BAD:shared-rps-profile-reported-finished-before-its-end"
              else if distinct <> "1" then "BAD:ids-not-distinct"
-             else if notahead <> "1" then "BAD:instance-created-before-its-startup-token"
              else if (not (b fail)) && idl <> seqi 0 started then "BAD:ids-not-consecutive-from-0"
+             else if notahead <> "1" then "BAD:instance-created-before-its-startup-token"
              else if b fail && (List.exists (fun i -> i >= k || i < 0) idl || List.length idl < launched - 1) then "BAD:ids-with-failed-creation"
              else if finished <> started then "BAD:instance-start-finish-counters"
              else if started > k then "BAD:more-instances-than-tokens"
